@@ -1115,13 +1115,13 @@ def check_C16(ctx):
 def _prng_init_source(ctx):
     """TJ.Props.C17Gen: the term REGENERATED from tinyjambu_prng_init_user (user-callback case) equals the model's initUser; the status is 1 exactly on a full delivery"""
     import taint
-    ok, stats = taint.regenerate(ctx, ('TJ.Props.C17Gen',))
+    ok, stats = taint.regenerate(ctx, ('TJ.Props.C17Gen', 'TJ.Props.C16Gen'))
     ctx.extra_cov['minic'] = {k: stats.get(k) for k in ('functions', 'translated', 'errors', 'build_ok')}
     if stats.get('errors'): ctx.broken_proofs.append('tools/c2lean.py cannot translate the current sources: ' + '; '.join(stats['errors'][:3]))
     elif not ok: ctx.broken_proofs.append('TJ.Props.C17Gen (regenerated tinyjambu_prng_init_user with a user callback = the model\'s initUser, status 1 iff full delivery) no longer checks: ' + re.sub(r'\s+', ' ', stats.get('build_log_tail', ''))[-600:])
 
 def check_C17(ctx):
-    ctx.build(); _prng_init_source(ctx); ctx.lean(extra_modules=['TJ.Props.C17Gen'])
+    ctx.build(); _prng_init_source(ctx); ctx.lean(extra_modules=['TJ.Props.C17Gen', 'TJ.Props.C16Gen'])
     import itertools
     g = ctx.g; lines = []; n = 0
     kinds = ['full', 'short', 'zero', 'fullret-short', 'over']
